@@ -217,7 +217,7 @@ void defineArg(Handler &h, Pool &p, const Config &cfg, const ArgDef &a) {
   if (a.unsetFlag) t->unsetFlag();
   if (a.mandatory) t->setIsMandatory();
   if (a.hidden) t->setIsHidden();
-  if (a.printDefault) t->setPrintDefault(true);
+  if (a.printDefault) t->setPrintDefault(a.printDefault == 1);
   if (a.deprecated) { if (a.replacedBy.empty()) t->setIsDeprecated(); else t->setReplacedBy(a.replacedBy); }
   switch (a.cardKind) {
     case CARD_NONE: t->setCardinality(); break;
@@ -318,6 +318,7 @@ RealResult runReal(const Config &cfg, const RealInput &in) {
       if (in.haveFile && in.fileViaArgument) h.addArgumentFile("arg-file");
       for (auto &a : cfg.args) defineArg(h, *pool, cfg, a);
       for (auto &hc : cfg.hcs) defineHandlerConstraint(h, cfg, hc);
+      if (usageLineLength(cfg.flags)) h.setUsageLineLength(usageLineLength(cfg.flags));
       setupDone = true;
       h.evalArguments(argc, argv.data());
     } else {
